@@ -204,10 +204,11 @@ def judge(r, apps, spelling, iface, kind, path):
     w = {"spelling": spelling, "iface": iface, "kind": kind, "path": path}
     where = f"{iface} {kind}({spelling}) on {path!r}"
     if _AUDIT["log"]:
-        r.violation("opened-outside-directory", w, f"{where} opened {_AUDIT['log'][0]!r} which is outside the served directory")
+        rel = os.path.relpath(_AUDIT["log"][0], _AUDIT["sandbox"])
+        r.violation("opened-outside-directory", w, f"{where} opened <sandbox>/{rel} which is outside the served directory <sandbox>/root")
         return
     if got[0] == "exception":
-        r.violation(f"exception:{got[1]}", w, f"{where} raised {got[1]}: {got[2]}")
+        r.violation(f"exception:{got[1]}", w, f"{where} raised {got[1]}: {got[2]}".replace(_AUDIT["sandbox"] or "<none>", "<sandbox>"))
         return
     if res.problems:
         r.violation("protocol", w, f"{where}: {res.problems[0]}")
